@@ -145,20 +145,61 @@ Ltac chr_unfold := unfold sym, endc, ascii_alnum, ascii_alpha, lower, is_digit, 
 Ltac chr_solve := chr_unfold; b2p; lia.
 
 Local Open Scope N_scope.
+(* ---- facts about ASCII characters are decided by running the boolean statement on all 128 of them (vm_compute) instead of by
+   case analysis in lia (which took a minute): [ascii_all P = true] gives P c for every c < 128 ---- *)
+Fixpoint n_upto (n : nat) : list N := match n with O => [] | S k => N.of_nat k :: n_upto k end.
+Lemma n_upto_in n c : c < N.of_nat n -> In c (n_upto n).
+Proof.
+  induction n as [|k IH]; intros H; [cbn in H; lia|]. cbn [n_upto].
+  destruct (N.eq_dec c (N.of_nat k)) as [->|D]; [left; reflexivity|right; apply IH; rewrite Nat2N.inj_succ in H; lia].
+Qed.
+Definition ascii_all (P : N -> bool) : bool := forallb P (n_upto 128).
+Lemma ascii_all_spec P : ascii_all P = true -> forall c, c < 128 -> P c = true.
+Proof. unfold ascii_all. intros F c H. rewrite forallb_forall in F. apply F, n_upto_in. exact H. Qed.
 (* what a character that is none of the "special" ones cannot be *)
 Definition plain_char (c : chr) : Prop :=
   sym c = false /\ is_nl c = false /\ is_quote c = false /\ c <> 36 /\ c <> 64 /\ c <> 35 /\ c <> 46.
+Definition plain_char_b (c : chr) : bool :=
+  negb (sym c) && negb (is_nl c) && negb (is_quote c) && negb (c =? 36) && negb (c =? 64) && negb (c =? 35) && negb (c =? 46).
+
+(* H : the boolean premise about c, L : c < 128, P : fun c => implb premise (conjunction of boolean conclusions) *)
+Ltac table_facts H L P :=
+  let X := fresh "X" in
+  pose proof (ascii_all_spec P ltac:(vm_compute; reflexivity) _ L) as X; cbv beta delta [plain_char_b] in X; rewrite H in X; cbn [implb] in X;
+  b2p; tauto.
 
 Lemma lower_facts c : lower c = true -> plain_char c /\ is_digit c = false /\ endc c = false /\ c <> 96 /\ c <> 95 /\ ascii_alnum c = true.
-Proof. intros H. unfold plain_char. repeat split; chr_solve. Qed.
+Proof.
+  intros H. assert (L : c < 128) by (unfold lower in H; b2p; lia). unfold plain_char.
+  table_facts H L (fun c => implb (lower c) (plain_char_b c && negb (is_digit c) && negb (endc c) && negb (c =? 96) && negb (c =? 95) && ascii_alnum c)).
+Qed.
 Lemma digit_facts c : is_digit c = true -> plain_char c /\ lower c = false /\ endc c = false /\ c <> 96 /\ c <> 95.
-Proof. intros H. unfold plain_char. repeat split; chr_solve. Qed.
+Proof.
+  intros H. assert (L : c < 128) by (unfold is_digit in H; b2p; lia). unfold plain_char.
+  table_facts H L (fun c => implb (is_digit c) (plain_char_b c && negb (lower c) && negb (endc c) && negb (c =? 96) && negb (c =? 95))).
+Qed.
 Lemma quote_facts c : is_quote c = true -> sym c = false /\ is_nl c = false /\ is_digit c = false /\ lower c = false /\ c <> 36 /\ c <> 64 /\ c <> 35 /\ c <> 96.
-Proof. intros H. repeat split; chr_solve. Qed.
+Proof.
+  intros H. assert (L : c < 128) by (unfold is_quote in H; b2p; lia).
+  table_facts H L (fun c => implb (is_quote c) (negb (sym c) && negb (is_nl c) && negb (is_digit c) && negb (lower c) && negb (c =? 36) && negb (c =? 64) && negb (c =? 35) && negb (c =? 96))).
+Qed.
 Lemma sym_facts c : sym c = true -> is_nl c = false /\ is_quote c = false /\ is_digit c = false /\ lower c = false /\ c <> 36 /\ c <> 64 /\ c <> 35 /\ c <> 96 /\ c <> 95.
-Proof. intros H. repeat split; chr_solve. Qed.
+Proof.
+  intros H. assert (L : c < 128) by (unfold sym in H; apply andb_true_iff in H as [H _]; apply andb_true_iff in H as [H _]; now apply N.ltb_lt).
+  table_facts H L (fun c => implb (sym c) (negb (is_nl c) && negb (is_quote c) && negb (is_digit c) && negb (lower c) && negb (c =? 36) && negb (c =? 64) && negb (c =? 35) && negb (c =? 96) && negb (c =? 95))).
+Qed.
 Lemma nl_facts c : is_nl c = true -> sym c = false /\ endc c = true.
-Proof. intros H. repeat split; chr_solve. Qed.
+Proof.
+  intros H. assert (L : c < 128) by (unfold is_nl in H; b2p; lia).
+  table_facts H L (fun c => implb (is_nl c) (negb (sym c) && endc c)).
+Qed.
+(* a character outside ASCII is none of the characters the lexer tests for *)
+Lemma big_facts c : 128 <= c -> plain_char c /\ is_digit c = false /\ endc c = false /\ c <> 96 /\ c <> 95.
+Proof.
+  intros H. assert (B : (c <? 128) = false) by now apply N.ltb_ge.
+  unfold plain_char, sym, endc. rewrite B. cbn [andb].
+  repeat split; try reflexivity; try (intros ->; now vm_compute in H); unfold is_nl, is_quote, is_digit; b2p; lia.
+Qed.
 
 Section ClassFacts.
   Variable is_alpha is_alnum : chr -> bool.
@@ -177,9 +218,21 @@ Section ClassFacts.
     destruct (N.lt_ge_cases c 128) as [L|L]; [right; left; now apply (proj2 CK)|left; exact L].
   Qed.
   Lemma start_facts c : is_ident_start is_alpha c = true -> plain_char c /\ is_digit c = false /\ c <> 96.
-  Proof. intros H. apply start_cases in H. unfold plain_char. repeat split; chr_solve. Qed.
+  Proof.
+    intros H. apply start_cases in H. destruct H as [H|[H| ->]].
+    - apply big_facts in H. tauto.
+    - assert (L : c < 128) by (unfold ascii_alpha, lower in H; b2p; lia). unfold plain_char.
+      table_facts H L (fun c => implb (ascii_alpha c) (plain_char_b c && negb (is_digit c) && negb (c =? 96))).
+    - unfold plain_char. repeat split; try reflexivity; discriminate.
+  Qed.
   Lemma cont_facts c : is_ident_cont is_alnum c = true -> plain_char c /\ endc c = false /\ c <> 96.
-  Proof. intros H. apply cont_cases in H. unfold plain_char. repeat split; chr_solve. Qed.
+  Proof.
+    intros H. apply cont_cases in H. destruct H as [H|[H| ->]].
+    - apply big_facts in H. tauto.
+    - assert (L : c < 128) by (unfold ascii_alnum, ascii_alpha, lower, is_digit in H; b2p; lia). unfold plain_char.
+      table_facts H L (fun c => implb (ascii_alnum c) (plain_char_b c && negb (endc c) && negb (c =? 96))).
+    - unfold plain_char. repeat split; try reflexivity; discriminate.
+  Qed.
   Lemma alpha_not_35 : is_ident_start is_alpha 35 = false.
   Proof. destruct (is_ident_start is_alpha 35) eqn:E; [|reflexivity]. apply start_facts in E. unfold plain_char in E. intuition congruence. Qed.
 End ClassFacts.
